@@ -46,6 +46,16 @@ Fixpoint select_pass (regs : list (list N)) (refs : list (list N * list N * bool
            end
   end.
 
+(* Registration history: register_scope_providers may be called several times on one meta-model.  The keys
+   in force are those of the LATEST call (`registration_replaces` is a translated fact: the method starts
+   with `self.scope_providers = sp`; were it false the entries of a call would be added to the ones already
+   there).  A fresh meta-model has no registered key. *)
+Fixpoint active_keys (history : list (list (list N))) (acc : list (list N)) : list (list N) :=
+  match history with
+  | [] => acc
+  | sp :: r => active_keys r (if registration_replaces then sp else sp ++ acc)
+  end.
+
 (* What a registration value denotes once registered / what a grammar RREL denotes.  The RREL parser is
    the one of Model/RrelSyntax.v (property C12). *)
 Inductive provider := PCallable (id : nat) | PRrel (tree : RrelSyntax.expr) | PInvalid.
